@@ -14,8 +14,13 @@
      [len(V)==0 -> continue] branch only skips the nil entries, so it starts at the head.
    * Go's [snakes] (same length, nil holes that [operations] skips) is the list of the
      non-nil entries in increasing d.
-   * The diff itself is generic in the line type (Section variables [A], [eqb]);
-     ComputeEdits instantiates it with byte strings. *)
+   * The diff itself is generic in the line type (Section variables [A], [eqb]); inside the
+     Section the two line slices are the lengths [Mz], [Nz] and bounds-checked accessors
+     [geta], [getb]; [operations] instantiates them with PositiveMap-backed accessors built once
+     per call (so that a 300-line pair evaluates in under a second with vm_compute), and
+     ComputeEdits instantiates the line type with byte strings.
+   * splitLines is the repaired one (commit 778ab02: '\n', '\r\n' and a lone '\r' end a line);
+     the pinned behaviour is kept as [split_lines_pinned] / [compute_edits_pinned]. *)
 From Regal Require Export Base.Str.
 From Coq Require Export FMapPositive.
 Open Scope Z_scope.
